@@ -33,6 +33,21 @@ def find_eq_guard(ctx, fn, want_a, want_b):
         res = find_eq_guard_in_helpers(ctx, fn, want_a, want_b)
     if not res:
         res = find_eq_guard_in_update_closure(ctx, fn, want_a, want_b)
+    if not res:
+        # `if classify(..)? != Kind::V { return Err }`: the classifier returns V on one path only, and that path is behind a == b
+        for g in common.bool_guards(ctx.P, fn):
+            c = g.cond
+            if c[0] != "cmp" or c[1] not in ("eq", "ne") or len(c[2]) != 2:
+                continue
+            conds = common.classifier_conditions(ctx.P, c[2], g.b, 0)
+            for c2 in conds or []:
+                cc = c2["cond"]
+                if cc[0] == "cmp" and cc[1] in ("eq", "ne") and len(cc[2]) == 2 and c2["allowed"] == [cc[1] == "eq"]:
+                    ra, rb = set(ctx.roots(cc[2][0])), set(ctx.roots(cc[2][1]))
+                    if (ra == want_a and rb == want_b) or (ra == want_b and rb == want_a):
+                        truth = (c[1] == "eq")
+                        res.append((g, g.edge(truth), g.edge(not truth)))
+                        break
     return res
 
 
